@@ -119,6 +119,18 @@ Theorem C30_scheduler_is_run : forall fx c prefer sc,
   st = fst (run fx (init c) (rev tr)).
 Proof. exact simulate_is_run. Qed.
 
+(* The replay scheduler reaches quiescence after every script instant, for ALL scripts and wake orders:
+   nobody is runnable and every blocked caller has its deadline ahead ([quiet]); with
+   C30_no_fitting_waiter (its request neither fits nor exceeds the capacity) this is the acceptor's
+   "pending" clause - whoever has not returned at the end of an instant is rightly still waiting.
+   And with all timers delivered every Acquire returns (the repaired model never reports "never"). *)
+Theorem C30_scheduler_quiescent : forall prefer s t0 now op,
+  quiet (fst (fst s)) t0 -> quiet (fst (fst (sim_instant prefer s now op))) now.
+Proof. exact sim_instant_quiet. Qed.
+Theorem C30_scheduler_all_return : forall c prefer sc,
+  let '(st, tr, ob) := sim_script true prefer (init c, [], []) sc in waiting st = [] /\ woken st = [].
+Proof. exact simulate_all_return. Qed.
+
 (* non-vacuity: a reachable state with held > 0 and two runnable waiters, one that fits and one
    that does not *)
 Example C30_nonvacuous : reachable (mkM 2 20) ex_state /\
@@ -141,3 +153,5 @@ Print Assumptions C30_runnable_stays.
 Print Assumptions C30_deadline_returns.
 Print Assumptions C30_timeout.
 Print Assumptions C30_scheduler_is_run.
+Print Assumptions C30_scheduler_quiescent.
+Print Assumptions C30_scheduler_all_return.
